@@ -362,6 +362,14 @@ func genNodeDownScript(r *hx.Rng) ([]ndNode, []ndEvt) {
 	return nodes, evs
 }
 
+func manyWorkloads(n string, k int) []ndEvt {
+	out := []ndEvt{}
+	for i := 1; i <= k; i++ {
+		out = append(out, ndEvt{E: "create", N: n, ID: i}, ndEvt{E: "report", ID: i, Running: i%3 != 0, Healthy: i%2 == 0})
+	}
+	return out
+}
+
 func nodeDownCorpus() []ndCase {
 	n2 := []ndNode{{Name: "n1"}, {Name: "n2"}}
 	up := func(id int) ndEvt { return ndEvt{E: "report", ID: id, Running: true, Healthy: true} }
@@ -377,6 +385,8 @@ func nodeDownCorpus() []ndCase {
 		// the store update of the watcher's SetNode fails once: the workloads are still marked down
 		{Nodes: []ndNode{{Name: "n1"}}, Script: []ndEvt{{E: "heartbeat", N: "n1"}, {E: "create", N: "n1", ID: 1}, {E: "create", N: "n1", ID: 2}, up(1), up(2),
 			{E: "startWatcher"}, {E: "failUpdate", N: "n1"}, {E: "lapse", N: "n1", How: "delete"}}},
+		// a node with many workloads (beyond a dozen): every one of them must be marked
+		{Nodes: []ndNode{{Name: "n1"}}, Script: append(append([]ndEvt{{E: "heartbeat", N: "n1"}}, manyWorkloads("n1", 17)...), ndEvt{E: "startWatcher"}, ndEvt{E: "lapse", N: "n1", How: "delete"})},
 		// failover: the lapse happens while our watcher is standby; its later activation must scan
 		{Nodes: n2, Script: []ndEvt{{E: "heartbeat", N: "n1"}, {E: "heartbeat", N: "n2"}, {E: "create", N: "n1", ID: 1}, {E: "create", N: "n2", ID: 2}, up(1), up(2),
 			{E: "standby"}, {E: "lapse", N: "n1", How: "delete"}, {E: "startWatcher"}}},
